@@ -31,6 +31,11 @@ pub enum FailMode {
     UnknownAsSet,
     NotUnique,
     OtherError,
+    /// the expression is valid mp-filter syntax the evaluator cannot evaluate: an AS-path regular
+    /// expression (`<^AS65000>`, written `&lt;^AS65000&gt;` in the configuration's attribute)
+    AsPathRegexp,
+    /// an attribute match with a quoted argument (`&quot;` in the attribute)
+    AttributeMatch,
 }
 
 #[derive(Debug, Clone, Serialize, Deserialize)]
@@ -84,9 +89,21 @@ fn world(
             }
         }
         db.route_sets.insert(rs.clone(), members);
-        let (text, expr) = if p.eval_fails {
+        let (text, expr) = if p.eval_fails
+            && matches!(mode, FailMode::AsPathRegexp | FailMode::AttributeMatch)
+        {
+            (
+                if mode == FailMode::AsPathRegexp {
+                    format!("{rs} AND <^AS{}>", 65000 + i)
+                } else {
+                    format!("{rs} AND community.contains({}:1)", 65000 + i)
+                },
+                None,
+            )
+        } else if p.eval_fails {
             let n = format!("AS-FAIL{i}");
             match mode {
+                FailMode::AsPathRegexp | FailMode::AttributeMatch => {}
                 FailMode::UnknownAsSet => {}
                 FailMode::NotUnique => {
                     db.as_sets.insert(n.clone(), vec!["AS65001".into()]);
@@ -203,6 +220,8 @@ fn run_history(h: &E2eHistory, c03: bool, runner: crate::fullrun::Runner, obs: &
                     match h.fail_modes.get(r) {
                         Some(FailMode::NotUnique) => "irr-error-E",
                         Some(FailMode::OtherError) => "irr-error-F",
+                        Some(FailMode::AsPathRegexp) => "as-path-regexp",
+                        Some(FailMode::AttributeMatch) => "attribute-match",
                         _ => "unknown-as-set",
                     }
                 };
@@ -335,7 +354,9 @@ fn e2e_history_strategy(max_runs: usize) -> BoxedStrategy<E2eHistory> {
             prop_oneof![
                 Just(FailMode::UnknownAsSet),
                 Just(FailMode::NotUnique),
-                Just(FailMode::OtherError)
+                Just(FailMode::OtherError),
+                Just(FailMode::AsPathRegexp),
+                Just(FailMode::AttributeMatch)
             ],
             max_runs,
         ),
